@@ -86,6 +86,7 @@ func newWorld(out *bufio.Writer) *world {
 	if err := w.n.S.AddAddress(1, ipv6.ProtocolNumber, tcpip.Address(own6[1])); err != nil {
 		panic(err.String())
 	}
+	w.n.L.Retain = true
 	w.n.L.OnFrame = func(f netx.Frame) {
 		b := append([]byte(nil), f.Bytes...)
 		w.frames <- b
@@ -713,7 +714,14 @@ func (w *world) freeBurst(r *gen.Rng, n int, oneP bool) {
 			break
 		}
 	}
-	w.n.L.Take()
+	// the frames as a queueing link endpoint (protocol/link/channel keeps hdr.View() uncopied)
+	// would hand them over now, after the whole burst
+	if late := w.n.L.TakeLate(); len(late) == len(fs) {
+		for i := range late {
+			fs[i] = late[i].Bytes
+		}
+		w.count("v4-free-burst-late-read")
+	}
 	fmt.Fprintf(w.w, "KFree4 %s %s %s %s\n", "own4", encs(reqs), encs(fs), netx.B(pan))
 	w.count("v4-free-burst")
 }
